@@ -120,8 +120,9 @@ impl Ctl {
 }
 
 // ----------------------------------------------------------------------------- values
+/// size of the value with identity `id`: distinct per id, and small for the long stress histories
 fn size_of(id: u64) -> usize {
-    1usize << (id - 1)
+    1 + 3 * id as usize
 }
 fn value_of(id: u64) -> Bytes {
     Bytes::from(vec![id as u8; size_of(id)])
@@ -135,7 +136,7 @@ fn decode(v: &Option<Bytes>) -> i64 {
                 return -1;
             }
             let id = b[0] as u64;
-            if id >= 1 && id <= 20 && b.len() == size_of(id) && b.iter().all(|x| *x as u64 == id) { id as i64 } else { -1 }
+            if id >= 1 && id <= 250 && b.len() == size_of(id) && b.iter().all(|x| *x as u64 == id) { id as i64 } else { -1 }
         }
     }
 }
@@ -223,7 +224,12 @@ fn dyn_exec(dir: &std::path::Path) -> Exec {
         // the value of key k is identified by k itself (id = k in the history)
         "put" | "put_exp" => match tok(c.write(&key_of(k), &content(k))) {
             Ok(()) => json!("ok"),
-            Err(_) => json!("err"),
+            Err(e) => {
+                if std::env::var("VERIF_DEBUG").is_ok() {
+                    eprintln!("dyn write error: {e}");
+                }
+                json!("err")
+            }
         },
         "get" => {
             let mut buf = vec![0u8; 4096];
